@@ -266,6 +266,21 @@ class Gen:
                     st.append(gosub(r.choice(later)))
                 prog[body_ln] = st
                 body_ln += 10
+            shape = r.random()
+            if shape < 0.25:
+                # the subroutine is left from inside its own FOR loop (the frame is discarded by RETURN)
+                v = r.choice(["SI", "SJ%"])
+                prog[body_ln] = [for_(var(v), I(1), I(r.randint(2, 4)))]
+                prog[body_ln + 3] = [self.simple([v])]
+                prog[body_ln + 6] = [if_(bin_("ge", var(v), I(r.randint(1, 3))), [ret()])]
+                prog[body_ln + 8] = [next_(var(v)) if r.random() < 0.5 else next_()]
+                body_ln += 10
+            elif shape < 0.4:
+                # ... or from inside a WHILE loop, or with a nested single-line loop completed before
+                prog[body_ln] = [let(var("SW"), I(2)), while_(bin_("gt", var("SW"), I(0))), let(var("SW"), bin_("sub", var("SW"), I(1))),
+                                 if_(bin_("eq", var("SW"), I(0)), [ret()])]
+                prog[body_ln + 5] = [wend()]
+                body_ln += 10
             prog[body_ln] = [ret()]
         if self.has_data:
             dl = r.choice([5, ln + 5, 995])
